@@ -178,18 +178,45 @@ pub fn mutfen_string(m: &MutFen) -> Option<String> {
     Some(chars.into_iter().collect())
 }
 
+/// from_fen on a helper thread with a 10 s limit (None = did not return; the thread is abandoned)
+fn from_fen_bounded(s: &str) -> Option<Result<Result<(), String>, String>> {
+    let (tx, rx) = std::sync::mpsc::channel();
+    let owned = s.to_string();
+    std::thread::spawn(move || {
+        let r = catch(|| BoardState::from_fen(&owned).map(|_| ()).map_err(|e| e.to_string()));
+        let _ = tx.send(r);
+    });
+    rx.recv_timeout(std::time::Duration::from_secs(10)).ok()
+}
+
 /// black-box: the CLI front end prints the loader's error and exits normally
 pub fn cli_check(s: &str) -> CaseResult {
     let bin = std::env::var("WALLEYE_BIN").map_err(|_| "HARNESS: WALLEYE_BIN not set".to_string())?;
-    let expected = match catch(|| BoardState::from_fen(s).map_err(|e| e.to_string())) {
-        Ok(Err(e)) => e,
+    let expected = match from_fen_bounded(s) {
+        Some(Ok(Err(e))) => e,
+        None => return Err(format!("from_fen did not return within 10 s on {:?} (non-termination)", s)),
         _ => return Ok(()), // accepted (or panicking: reported by the in-process part)
     };
     // a private scratch directory per invocation (the same string can be tried by two workers)
     static N: std::sync::atomic::AtomicU64 = std::sync::atomic::AtomicU64::new(0);
     let dir = format!("{}/run/cli_{}_{}", std::env::var("VERIF_CACHE").unwrap_or_else(|_| "/verif/.cache".into()), std::process::id(), N.fetch_add(1, std::sync::atomic::Ordering::Relaxed));
     std::fs::create_dir_all(&dir).ok();
-    let out = std::process::Command::new(&bin).current_dir(&dir).arg(format!("--fen={}", s)).arg("-T").arg("-d").arg("1").stdin(std::process::Stdio::null()).output().map_err(|e| format!("HARNESS: cannot run {}: {}", bin, e))?;
+    let mut child = std::process::Command::new(&bin).current_dir(&dir).arg(format!("--fen={}", s)).arg("-T").arg("-d").arg("1").stdin(std::process::Stdio::null()).stdout(std::process::Stdio::piped()).stderr(std::process::Stdio::piped()).spawn().map_err(|e| format!("HARNESS: cannot run {}: {}", bin, e))?;
+    let t0 = std::time::Instant::now();
+    loop {
+        match child.try_wait() {
+            Ok(Some(_)) => break,
+            Ok(None) if t0.elapsed().as_secs() >= 10 => {
+                let _ = child.kill();
+                let _ = child.wait();
+                std::fs::remove_dir_all(&dir).ok();
+                return Err(format!("`walleye --fen={:?} -T -d 1` neither printed an error nor exited within 10 s", s));
+            }
+            Ok(None) => std::thread::sleep(std::time::Duration::from_millis(2)),
+            Err(e) => return Err(format!("HARNESS: wait failed: {}", e)),
+        }
+    }
+    let out = child.wait_with_output().map_err(|e| format!("HARNESS: cannot collect output: {}", e))?;
     std::fs::remove_dir_all(&dir).ok();
     let stdout = String::from_utf8_lossy(&out.stdout);
     let stderr = String::from_utf8_lossy(&out.stderr);
@@ -207,6 +234,8 @@ pub fn cli_check(s: &str) -> CaseResult {
 
 pub fn run_c15(ctx: &mut Ctx) {
     let t = ctx.tier;
+    // "either succeeds or reports an error": a call that never returns does neither
+    ctx.hang_limit_s = Some(10);
     run_prop(ctx, "arbitrary_unicode_strings", || any::<String>(), t.pick(300_000, 4_000_000), |s, st| c15_string(s, st), |s| json!({"string": s}));
     run_prop(ctx, "six_field_shaped_garbage", six_fields, t.pick(900_000, 12_000_000), |s, st| c15_string(s, st), |s| json!({"string": s}));
     run_prop(
@@ -286,7 +315,7 @@ pub fn run_c15(ctx: &mut Ctx) {
         false,
         move |i, st| {
             let s = &strings[i as usize];
-            let rejected = matches!(catch(|| BoardState::from_fen(s).is_err()), Ok(true));
+            let rejected = !matches!(from_fen_bounded(s), Some(Ok(Ok(()))));
             if !rejected {
                 st.label("cli_skipped_loader_accepts");
                 return Ok(());
@@ -308,6 +337,9 @@ pub fn replay_c15(case: &Value) -> CaseResult {
     let s = case.get("string").and_then(|x| x.as_str()).ok_or("no string in replay case")?;
     if case.get("cli").is_some() {
         return cli_check(s);
+    }
+    if from_fen_bounded(s).is_none() {
+        return Err(format!("from_fen did not return within 10 s on {:?} (non-termination)", s));
     }
     c15_string(s, &mut Stats::new())
 }
